@@ -11,6 +11,7 @@ import (
 	"github.com/NethermindEth/juno/blockchain/networks"
 	"github.com/NethermindEth/juno/core"
 	"github.com/NethermindEth/juno/core/felt"
+	"github.com/NethermindEth/juno/core/pending"
 	"github.com/NethermindEth/juno/db"
 	"github.com/NethermindEth/juno/db/memory"
 	_ "github.com/NethermindEth/juno/encoder/registry" // CBOR type tags, as the node does
@@ -164,7 +165,7 @@ func reads(r core.StateReader) string {
 // baseTable renders the reads of a base reader as the driver's `base` table: entries that are
 // not found are left out; any other error makes the table unusable (reported by the caller).
 func baseTable(r core.StateReader) (string, error) {
-	var ch, no, st, cl, ca, c2, lu []string
+	var ch, no, st, cl, ca, c2, lu, at []string
 	chk := func(err error) error {
 		if err != nil && !errors.Is(err, db.ErrKeyNotFound) {
 			return err
@@ -201,6 +202,7 @@ func baseTable(r core.StateReader) (string, error) {
 		hf := fe(h)
 		if c, err := r.Class(hf); err == nil {
 			cl = append(cl, fmt.Sprintf("%d:%s", h, classID(c.Class)))
+			at = append(at, fmt.Sprintf("%d:%d", h, c.At))
 		} else if e := chk(err); e != nil {
 			return "", e
 		}
@@ -231,6 +233,7 @@ func baseTable(r core.StateReader) (string, error) {
 	add("ca", ca)
 	add("c2", c2)
 	add("lu", lu)
+	add("at", at)
 	if len(secs) == 0 {
 		return "-", nil
 	}
@@ -252,4 +255,35 @@ func readsLU(r core.StateReader) string {
 		}
 	}
 	return "lu[" + strings.Join(out, ",") + "]"
+}
+
+// readsExtra renders the accessors of pending.State that reads() leaves out, in the format of the driver's
+// showExtra: Class(h).At over the universe (0 for a class the view carries: as implemented) and the three trie
+// getters (a pre-confirmed state has no tries: all three must return ErrHistoricalTrieNotSupported).
+func readsExtra(r core.StateReader) string {
+	var ats []string
+	for _, h := range uniCH {
+		c, err := r.Class(fe(h))
+		switch {
+		case err != nil:
+			ats = append(ats, fmt.Sprintf("%d=%s", h, errTok(err)))
+		case c == nil:
+			ats = append(ats, fmt.Sprintf("%d=nilclass", h))
+		default:
+			ats = append(ats, fmt.Sprintf("%d=%d", h, c.At))
+		}
+	}
+	tries := "unsup"
+	if ps, ok := r.(*pending.State); ok {
+		_, e1 := ps.ClassTrie()
+		_, e2 := ps.ContractTrie()
+		_, e3 := ps.ContractStorageTrie(fe(100))
+		if !errors.Is(e1, pending.ErrHistoricalTrieNotSupported) || !errors.Is(e2, pending.ErrHistoricalTrieNotSupported) ||
+			!errors.Is(e3, pending.ErrHistoricalTrieNotSupported) {
+			tries = fmt.Sprintf("class:%v,contract:%v,storage:%v", e1, e2, e3)
+		}
+	} else {
+		tries = fmt.Sprintf("not-a-pending-state:%T", r)
+	}
+	return fmt.Sprintf("x[at:%s;tries=%s]", strings.Join(ats, ","), tries)
 }
